@@ -17,6 +17,11 @@ domain set-up).  Per batch of N markers the monitor
 4. counts the markers whose kernel index differs from ``floor((X - shift)/dx)`` evaluated in float64 (the
    "floor shifted by one" branch the source comment talks about); the run is INCONCLUSIVE when none did.
 
+Workload diversity (added after the seeded-change campaign): every 4th batch runs on a TALL grid (2-D: grid_size_y >
+grid_size_x; 3-D alternately y > x and z > x); after its pool entries every shard builds a SIBLING communicator that shares
+dx with one earlier object and N with another (3-D variant B: N == dim), constructed with positional arguments and the
+documented defaults, and then drives the FIRST communicator of the process again (module-level caches keyed incompletely).
+
 Tolerances (noise floors; ``kap = |X|/dx + 2`` is the amplification of the float64 cancellation in
 ``(index+j)*dx + shift - X`` -- invisible in float32 -- and ``e = eps_t + eps64*kap``):
   sign      w >= -16*eps_t*max w          (DESIGN says 4: the Peskin outer branch 5-2r-sqrt(..) is +-1.5 eps near
@@ -95,6 +100,11 @@ REQUIRE = {
     "markers_on_centre_or_face_within_2ulp": 1000,
     "on_centre_coordinates_indexed_to_lower_cell_float32": 100,
     "on_centre_coordinates_indexed_to_lower_cell_float64": 100,
+    "batches_grid_y_exceeds_x": 100,
+    "batches_grid_z_exceeds_x": 20,
+    "batches_sibling_comm_shared_dx_or_N": 100,
+    "batches_first_comm_after_sibling": 100,
+    "batches_N_equals_dim": 20,
 }
 
 EPS64 = float(np.finfo(np.float64).eps)
@@ -117,6 +127,13 @@ POOL = {
         "C": [(10.0, 21, 5), (1.0, 28, 256), (2.0, 32, 64), (1.3, 19, 1)],
         "D": [(0.37, 17, 3), (1.0, 40, 100), (2 * np.pi, 30, 400), (0.5, 16, 20)],
     },
+}
+# sibling communicators, built in the same process AFTER the pool entries of the variant: (dx of the first entry, N of a
+# later entry) -- a module-level cache keyed without dx or without N hands the sibling a closure of an earlier object;
+# 3-D "B" has N == dim.  Constructed with positional arguments and the documented defaults.  Shared with C07.
+SIBLINGS = {
+    2: {"A": (1.0, 37, 7), "B": (10.0, 24, 33), "C": (1.0, 57, 300), "D": (1.3, 26, 24)},
+    3: {"A": (1.0, 37, 40), "B": (2 * np.pi, 24, 3), "C": (10.0, 21, 256), "D": (0.37, 17, 100)},
 }
 # the monitors' dense NumPy algebra must not spawn a BLAS/OpenMP team per worker (16 workers share the cores)
 ONE_THREAD = {"OMP_NUM_THREADS": "1", "OPENBLAS_NUM_THREADS": "1", "MKL_NUM_THREADS": "1"}
@@ -169,14 +186,24 @@ def make_domain(d, shape, x_range, real_t):
     return _DomainOnly(grid_dim=d, grid_size=tuple(shape), x_range=x_range, real_t=real_t)
 
 
-def random_shape(rng, d, nx, tier):
-    """non-square / non-cubic grid with the given x size (x is the last axis)"""
+def random_shape(rng, d, nx, tier, tall=0):
+    """non-square / non-cubic grid with the given x size (x is the last axis); ``tall`` = 1: the y extent exceeds the x
+    extent (2-D: grid_size_y > grid_size_x), ``tall`` = 2 (3-D): the z extent exceeds the x extent"""
     hi = (40 if d == 2 else 16) if tier == "quick" else (64 if d == 2 else 22)
     while True:
         other = [int(rng.integers(6, hi + 1)) for _ in range(d - 1)]
+        if tall:
+            other[(d - 2) if tall == 1 else 0] = nx + int(rng.integers(1, 9 if d == 2 else 5))
         shape = tuple(other + [nx])
         if len(set(shape)) > 1:
             return shape
+
+
+def tall_class(b, d):
+    """which batches run on tall grids: every 4th, in 3-D alternating y > x and z > x"""
+    if b % 4 != 1:
+        return 0
+    return 1 if d == 2 or b % 8 == 1 else 2
 
 
 def axis_coordinates(position_field, a):
@@ -263,15 +290,22 @@ def gen_positions(rng, cls, N, shape, dx_t, real_t, x_range, position_field):
 class Comm:
     """the real communicator kernels + buffers laid out like VirtualBoundaryForcing's"""
 
-    def __init__(self, d, dx_t, N, real_t, kernel):
+    def __init__(self, d, dx_t, N, real_t, kernel, positional=False):
         import sopht.numeric.immersed_boundary_ops as spi
 
         cls = spi.EulerianLagrangianGridCommunicator2D if d == 2 else spi.EulerianLagrangianGridCommunicator3D
         self.d, self.N, self.real_t, self.dx_t = d, N, real_t, dx_t
         self.shift_t = real_t(dx_t / 2)
-        kw = dict(dx=dx_t, eul_grid_coord_shift=self.shift_t, num_lag_nodes=N, interp_kernel_width=WIDTH, real_t=real_t, interp_kernel_type=kernel)
-        self.scalar = cls(n_components=1, **kw)
-        self.vector = cls(n_components=d, **kw)
+        if positional:
+            # documented signature (dx, eul_grid_coord_shift, num_lag_nodes, interp_kernel_width, real_t, n_components=1,
+            # interp_kernel_type="cosine"): positional arguments, defaults left out where they apply
+            pos = (dx_t, self.shift_t, N, WIDTH, real_t)
+            self.scalar = cls(*pos) if kernel == "cosine" else cls(*pos, 1, kernel)
+            self.vector = cls(*pos, d) if kernel == "cosine" else cls(*pos, d, kernel)
+        else:
+            kw = dict(dx=dx_t, eul_grid_coord_shift=self.shift_t, num_lag_nodes=N, interp_kernel_width=WIDTH, real_t=real_t, interp_kernel_type=kernel)
+            self.scalar = cls(n_components=1, **kw)
+            self.vector = cls(n_components=d, **kw)
         self.idx = np.empty((d, N), dtype=int)
         self.sup = np.empty((d,) + (2 * WIDTH,) * d + (N,), dtype=real_t)
         self.w = np.empty((2 * WIDTH,) * d + (N,), dtype=real_t)
@@ -322,28 +356,48 @@ def run_shard(sh, rec):
     eps = util.eps(real_t)
     rng = util.rng_for(seed, ID, sh["name"])
     target = 6000 if tier == "quick" else 50000  # markers per (dx, N) combination
-    for x_range, nx, N in POOL[d][sh["variant"]]:
+    # pool entries, then the sibling communicator, then the FIRST communicator of this process once more
+    entries = [(e, "pool") for e in POOL[d][sh["variant"]]] + [(SIBLINGS[d][sh["variant"]], "sibling"), (POOL[d][sh["variant"]][0], "first-again")]
+    first = None
+    for (x_range, nx, N), role in entries:
         dom0 = make_domain(d, (8,) * (d - 1) + (nx,), x_range, real_t)
         dx_t = dom0.dx
         dxf = float(dx_t)
         shiftf = float(real_t(dx_t / 2))
         dy = is_dyadic(dxf)
-        try:
-            comm = Comm(d, dx_t, N, real_t, kernel)
-        except Exception as e:
-            rec.violation("communicator-construction-raises", f"{type(e).__name__}: {e} dx={dxf} N={N}", None)
-            rec.case(None)
-            continue
+        if role == "first-again":
+            if first is None:
+                continue
+            comm = first
+        else:
+            try:
+                comm = Comm(d, dx_t, N, real_t, kernel, positional=(role == "sibling"))
+            except Exception as e:
+                rec.violation("communicator-construction-raises", f"{type(e).__name__}: {e} dx={dxf} N={N}", None)
+                rec.case(None)
+                continue
+            if first is None and role == "pool":
+                first = comm
         nb = int(np.clip(target // N, 7 if tier == "quick" else 21, 120 if tier == "quick" else 600))
+        if role != "pool":
+            nb = max(7, nb // 3)
         off = int(rng.integers(len(POSITION_CLASSES)))
         for b in range(nb):
             cls = POSITION_CLASSES[(b + off) % len(POSITION_CLASSES)]
-            shape = random_shape(rng, d, nx, tier)
+            tall = tall_class(b, d)
+            shape = random_shape(rng, d, nx, tier, tall)
+            if shape[-2] > shape[-1]:
+                rec.count("batches_grid_y_exceeds_x")
+            if d == 3 and shape[0] > shape[-1]:
+                rec.count("batches_grid_z_exceeds_x")
+            rec.count({"pool": "batches_pool_comm", "sibling": "batches_sibling_comm_shared_dx_or_N", "first-again": "batches_first_comm_after_sibling"}[role])
+            if N == d:
+                rec.count("batches_N_equals_dim")
             dom = make_domain(d, shape, x_range, real_t)
             pf = dom.position_field
             P = gen_positions(rng, cls, N, shape, dx_t, real_t, x_range, pf)
             base = (d, sh["dtype"], kernel, "dyadic" if dy else "nondyadic", n_class(N), cls)
-            meta = {"dim": d, "dtype": sh["dtype"], "kernel": kernel, "x_range": x_range, "shape": shape, "dx": dxf, "N": N, "positions": cls}
+            meta = {"dim": d, "dtype": sh["dtype"], "kernel": kernel, "x_range": x_range, "shape": shape, "dx": dxf, "N": N, "positions": cls, "object": role}
             _check_batch(rec, rng, comm, P, shape, pf, dxf, shiftf, eps, base, meta, kernel, real_t)
 
 
